@@ -127,6 +127,8 @@ def _synth_flag_owner():
                         if it[0] != "fn":
                             continue
                         fn = F.fn(it[2])
+                        if fn is None or fn.get("hir") is None or fn.get("file") != adt.get("file"):
+                            continue  # (hand-written impls elsewhere, e.g. the collective conversions, may name the constants of other flag types)
                         for node in H.walk(fn["hir"]):
                             if node[0] == "path" and node[2].startswith("AssocConst"):
                                 o = gpath(crate, node[1].rsplit("::", 1)[0])
